@@ -115,8 +115,14 @@ Definition make_lfn (u:list Z) (sfn:list Z) : list lfnslot :=
   lfn_slots_from (Gen.checksum sfn) b 1 (Z.to_nat n) n.
 
 (** ** the slot scanner *)
-Definition lfn_complete (p:list lfnslot) : bool :=
-  existsb (fun s => Z.land (l_ord s) Gen.LAST_LONG_ENTRY =? Gen.LAST_LONG_ENTRY) p.
+(** ordinals 1..n-1 and n|LAST_LONG_ENTRY, each exactly once (keys of the implementation's dict are unique) *)
+Fixpoint ords_from (l:list Z) (i:Z) : bool :=
+  match l with
+  | [] => false
+  | [x] => (Z.land x Gen.LAST_LONG_ENTRY =? Gen.LAST_LONG_ENTRY) && (Z.land x (Z.lnot Gen.LAST_LONG_ENTRY) =? i) && (1 <=? i)
+  | x :: r => (x =? i) && ords_from r (i + 1)
+  end.
+Definition lfn_complete (p:list lfnslot) : bool := ords_from (map l_ord (sort_asc p)) 1.
 Definition lfn_chk_ok (p:list lfnslot) (name:list Z) : bool :=
   forallb (fun s => l_chk s =? Gen.checksum name) p.
 Inductive scan_res := ScanStop | ScanGo.
